@@ -13,7 +13,7 @@ EXTENDS Integers
 
 CONSTANT PMAX            \* PeriodType::MAX : 255 | 65535 | ... | scaled-down 7 / 15
 
-ASSUME PMAX \in Nat /\ PMAX >= 3
+ASSUME PMAXAssumption == PMAX \in Nat /\ PMAX >= 3
 
 OVF == -1                \* outcome "panicked with arithmetic overflow"
 
